@@ -31,74 +31,91 @@ class Boom(Exception):
 
 
 def replay_one(hist: list[dict[str, Any]]) -> str | None:
+    """Interpret a behaviour of Tracing.tla: nested / recursive calls of the
+    traced functions are driven from inside the function bodies."""
     import kfac.tracing as tracing
 
-    clock = {'t': 0.0, 'pending': None}
+    clock = {'t': 0.0}
     real_time = tracing.time
 
     class FakeTime:
         @staticmethod
         def time() -> float:
-            # first call of a pair returns t, second t + duration
-            if clock['pending'] is None:
-                return clock['t']
-            clock['t'] += clock['pending']
-            clock['pending'] = None
             return clock['t']
 
     tracing.time = FakeTime
-    try:
-        tracing.clear_trace()
-        impls: dict[int, Any] = {}
-        undecorated: dict[int, Any] = {}
-        for fid, name in FUNCS:
-            def make(fid=fid):
-                def f(obj, dur, raises, *a, **kw):
-                    clock['pending'] = dur
-                    if raises is not None:
-                        raise raises
-                    return obj
-                return f
-            f = make()
-            f.__name__ = name
-            undecorated[fid] = f
-            impls[fid] = tracing.trace()(f)
-        for i, rec in enumerate(hist):
-            if rec['act'] == 'call':
-                dur = rec['d'] * UNIT
+    pos = {'i': 0}
+    state: dict[str, Any] = {'err': None}
+    impls: dict[int, Any] = {}
+
+    def run_until_end(depth: int) -> tuple[bool, Any]:
+        """Process actions until the matching end of the current call (or the
+        end of the history at top level). Returns (raises, marker)."""
+        while pos['i'] < len(hist) and state['err'] is None:
+            i = pos['i']
+            rec = hist[i]
+            pos['i'] += 1
+            act = rec['act']
+            if act == 'begin':
                 marker = object()
-                if rec['raises']:
-                    exc = Boom(f'x{i}')
-                    try:
-                        impls[rec['f']](marker, dur, exc, 1, k=2)
-                        return f'op {i}: exception swallowed'
-                    except Boom as e:
-                        if e is not exc:
-                            return f'op {i}: a different exception was raised'
-                else:
-                    out = impls[rec['f']](marker, dur, None, 1, k=2)
-                    if out is not marker:
-                        return f'op {i}: return value changed'
-            elif rec['act'] == 'get':
+                exc = Boom(f'x{i}')
+                box = {'raises': None}
+                try:
+                    out = impls[rec['f']](marker, exc, box, depth + 1)
+                    if box['raises']:
+                        state['err'] = f'op {i}: exception swallowed'
+                    elif out is not marker:
+                        state['err'] = f'op {i}: return value changed'
+                except Boom as e:
+                    if not box['raises']:
+                        state['err'] = f'op {i}: unexpected exception'
+                    elif e is not exc:
+                        state['err'] = f'op {i}: a different exception raised'
+            elif act == 'tick':
+                clock['t'] += rec['d'] * UNIT
+            elif act == 'end':
+                if depth == 0:
+                    state['err'] = f'op {i}: end without a call in progress'
+                return bool(rec['flag']), None
+            elif act == 'get':
                 k = None if rec['d'] == 0 else rec['d']
-                got = tracing.get_trace(average=bool(rec['raises']),
+                got = tracing.get_trace(average=bool(rec['flag']),
                                         max_history=k)
                 want = {e['name']: Fraction(e['num'], e['den']) * Fraction(UNIT)
                         for e in rec['exp']}
-                if set(got) != set(want):
-                    return f'op {i}: names {sorted(got)} spec {sorted(want)}'
                 if list(got) != [e['name'] for e in rec['exp']]:
-                    return f'op {i}: order of names differs'
-                for nm, w in want.items():
-                    if got[nm] != float(w):  # IEEE division of exact operands
-                        return (f'op {i}: get_trace(average='
-                                f'{bool(rec["raises"])}, max_history={k})'
-                                f'[{nm}] = {got[nm]} spec {float(w)}')
-            elif rec['act'] == 'clear':
+                    state['err'] = (f'op {i}: names {list(got)} spec '
+                                    f'{[e["name"] for e in rec["exp"]]}')
+                else:
+                    for nm, w in want.items():
+                        if got[nm] != float(w):   # IEEE division of exact operands
+                            state['err'] = (
+                                f'op {i}: get_trace(average={bool(rec["flag"])},'
+                                f' max_history={k})[{nm}] = {got[nm]} spec '
+                                f'{float(w)}')
+                            break
+            elif act == 'clear':
                 tracing.clear_trace()
                 if tracing.get_trace() != {}:
-                    return f'op {i}: clear_trace left entries'
-        return None
+                    state['err'] = f'op {i}: clear_trace left entries'
+        return False, None
+
+    try:
+        tracing.clear_trace()
+        for fid, name in FUNCS:
+            def make(fid=fid):
+                def f(marker, exc, box, depth, *a, **kw):
+                    raises, _ = run_until_end(depth)
+                    box['raises'] = raises
+                    if raises:
+                        raise exc
+                    return marker
+                return f
+            f = make()
+            f.__name__ = name
+            impls[fid] = tracing.trace()(f)
+        run_until_end(0)
+        return state['err']
     finally:
         tracing.time = real_time
         tracing.clear_trace()
@@ -121,7 +138,7 @@ def gen(depth: int, funcs: list, durs: list[int], hist: list[int],
     defs = ('Funcs == {' + ', '.join(
         f'[id |-> {i}, name |-> "{n}"]' for i, n in funcs) + '}\n'
         f'Durs == {tla(set(durs))}\nHist == {tla(set(hist))}\n'
-        f'MaxDepth == {depth}\n')
+        f'MaxNest == 3\nMaxDepth == {depth}\n')
     name = 'MC_Tracing'
     mod = instantiate('Tracing', name, defs)
     cfg = 'SPECIFICATION Spec\nCONSTRAINT EmitDone\nCHECK_DEADLOCK FALSE\n'
@@ -148,22 +165,23 @@ def main(tier: str, seed: int) -> int:
     name = 'MC_TracingP'
     defs = ('Funcs == {' + ', '.join(
         f'[id |-> {i}, name |-> "{n}"]' for i, n in FUNCS) + '}\n'
-        'Durs == {1, 3}\nHist == {0, 1, 2}\n'
-        f'MaxDepth == {5 if quick else 6}\n')
+        'Durs == {1, 3}\nHist == {0, 1, 2}\nMaxNest == 3\n'
+        f'MaxDepth == {7 if quick else 8}\n')
     mod = instantiate('Tracing', name, defs)
     rp = run_tlc(name, cfg_text=(
         'SPECIFICATION Spec\nVIEW view\nINVARIANT NoEmptyEntries\n'
-        'INVARIANT UniqueKeys\nPROPERTY OneSamplePerCompletedCall\n'
-        'PROPERTY TotalGrowsByAtMostOne\nPROPERTY QueriesDoNotChange\n'
+        'INVARIANT UniqueKeys\nINVARIANT SamplesBounded\n'
+        'INVARIANT StackOrdered\nPROPERTY OneSamplePerCompletedCall\n'
+        'PROPERTY QueriesDoNotChange\n'
         'CHECK_DEADLOCK FALSE\n'), extra_modules={name: mod}, workers=8,
         deadlock=False, timeout=1800)
     if not rp.ok:
         v.violation(f'TLC: {rp.violated} on spec/Tracing.tla\n'
                     f'{rp.error_text[:800]}',
                     {'kind': 'spec', 'inv': str(rp.violated)})
-    r1, h1 = gen(4, FUNCS[:2] + FUNCS[2:], [1, 3], [0, 1, 2], None, seed)
-    r2, h2 = gen(9 if quick else 14, FUNCS, [1, 2, 5], [0, 1, 2, 3],
-                 12 if quick else 300, seed)
+    r1, h1 = gen(6, FUNCS, [1, 3], [0, 2], None, seed)
+    r2, h2 = gen(14 if quick else 20, FUNCS, [1, 2, 5], [0, 1, 2, 3],
+                 10 if quick else 250, seed)
     rng = random.Random(seed)
     if len(h1) > (6000 if quick else 10 ** 9):
         h1 = rng.sample(h1, 6000)
@@ -175,7 +193,7 @@ def main(tier: str, seed: int) -> int:
     for lst in res:
         for msg, h in lst:
             v.violation(f'{msg} :: history '
-                        f'{[(x["act"], x["f"], x["d"], x["raises"]) for x in h]}'[:600],
+                        f'{[(x["act"], x["f"], x["d"], x["flag"]) for x in h]}'[:600],
                         {'kind': 'replay', 'msg': msg.split(':', 1)[-1].strip()[:30]},
                         replay={'h': h})
     nontriv = {chash(h) for h in hs
@@ -184,7 +202,7 @@ def main(tier: str, seed: int) -> int:
         'states': max(rp.distinct + r1.distinct + r2.distinct, 1),
         'transitions': max(rp.generated + r1.generated + r2.generated, 1),
         'traces_validated_against_impl': len(hs),
-        'samples': [[(x['act'], x['f'], x['d'], x['raises']) for x in hs[0]]]
+        'samples': [[(x['act'], x['f'], x['d'], x['flag']) for x in hs[0]]]
         if hs else ['none'],
         'evaluations': len(hs),
         'distinct_nontrivial': len(nontriv),
